@@ -9,7 +9,15 @@ package verifharness
 // the SHA-256 of an ordered dump of every DeFi module store, the balances of all accounts the
 // workload touches and the supply of its denoms, plus the result class of every transaction, are
 // written.  One invocation replays VERIF_C16_REPLAYS times in process; harness/c16_replay.sh adds
-// fresh processes with different GOMAXPROCS (Go randomises map iteration per process and per map).
+// fresh processes with different GOMAXPROCS (Go randomises map iteration per process and per map)
+// and different TZ settings (the zone of the process must not show in the state: the block times
+// cross the US daylight-saving switch of 2024-03-10 and several midnights of every zone used, and an
+// external vault-reward program pays once a day), and one process that interleaves every
+// transaction with DISCARDED dry runs (VERIF_C16_DRYRUN=1): the same message on a cache context
+// that is never written, and the same message again on a second discarded branch after the
+// parameters, prices and switches of every module were changed there and a block two days in the
+// future was run there - what simulation / CheckTx / a failed multi-message transaction do to a
+// node.  Memory that survives the discarded branch shows as a digest difference.
 
 import (
 	"crypto/sha256"
@@ -19,20 +27,26 @@ import (
 	"sort"
 	"testing"
 	"time"
+	_ "time/tzdata" // the zones of c16_replay.sh resolve whatever the host has installed
 
 	abci "github.com/cometbft/cometbft/abci/types"
 	sdk "github.com/cosmos/cosmos-sdk/types"
 
 	chain "github.com/comdex-official/comdex/app"
+	"github.com/comdex-official/comdex/app/wasm/bindings"
 	"github.com/comdex-official/comdex/x/auctionsV2"
 	"github.com/comdex-official/comdex/x/bandoracle"
 	"github.com/comdex-official/comdex/x/esm"
 	"github.com/comdex-official/comdex/x/lend"
 	"github.com/comdex-official/comdex/x/liquidationsV2"
 	"github.com/comdex-official/comdex/x/liquidity"
+	"github.com/comdex-official/comdex/x/liquidity/amm"
+	esmtypes "github.com/comdex-official/comdex/x/esm/types"
 	liquiditytypes "github.com/comdex-official/comdex/x/liquidity/types"
+	lockertypes "github.com/comdex-official/comdex/x/locker/types"
 	"github.com/comdex-official/comdex/x/market"
 	"github.com/comdex-official/comdex/x/rewards"
+	rewardstypes "github.com/comdex-official/comdex/x/rewards/types"
 	vaulttypes "github.com/comdex-official/comdex/x/vault/types"
 )
 
@@ -90,13 +104,140 @@ func c16Block(a *chain.App, ctx sdk.Context, begin bool) {
 	}
 }
 
+// Friday 2024-03-08 12:00 UTC; the United States switch to daylight-saving time on Sunday 2024-03-10
+// 07:00 UTC.  Two blocks out of three follow the previous one after 6 s, the third after 9 h 17 min:
+// 24 blocks span three days (thorough: 120 blocks, fifteen days).
+var c16Start = time.Date(2024, 3, 8, 12, 0, 0, 0, time.UTC)
+
+func c16BlockTime(b int) time.Time {
+	t := c16Start
+	for i := 1; i <= b; i++ {
+		if i%3 == 0 {
+			t = t.Add(9*time.Hour + 17*time.Minute)
+		} else {
+			t = t.Add(6 * time.Second)
+		}
+	}
+	return t
+}
+
+// the discarded branches run before a transaction (VERIF_C16_DRYRUN=1).  Nothing here may touch the
+// real context, the PRNG of the workload or the result log.
+func c16DryRun(t *testing.T, a *chain.App, ctx sdk.Context, e *c15Env, m sdk.Msg, n int) {
+	h := a.MsgServiceRouter().Handler(m)
+	if h == nil {
+		return
+	}
+	// on the dropped branches the signer can afford anything
+	rich := func(c sdk.Context) {
+		for _, who := range m.GetSigners() {
+			for _, d := range []string{"uasset1", "uasset2", "uasset3", "uasset4"} {
+				fund(t, a, c, who, sdk.NewCoins(sdk.NewCoin(d, sdk.NewInt(1000000000000))))
+			}
+		}
+	}
+	// 1. the same message, as simulation / CheckTx run it: on a branch that is dropped
+	c1, _ := ctx.CacheContext()
+	rich(c1)
+	safely(func() { _, _ = h(c1, m) })
+	// 2. a branch on which the parameters, prices and switches of the modules are changed, a later
+	// block runs, and the message runs again; dropped as well
+	c2, _ := ctx.CacheContext()
+	rich(c2)
+	safely(func() {
+		fee := []string{"0.05", "0.000001", "0.9"}[n%3]
+		_ = a.LiquidityKeeper.UpdateGenericParams(c2, e.appSwap, []string{"SwapFeeRate", "WithdrawFeeRate", "SwapFeeBurnRate", "BatchSize"},
+			[]string{fee, "0.5", "0.7", "3"})
+		if gp, err := a.LiquidityKeeper.GetGenericParams(c2, e.appSwap); err == nil {
+			gp.MaxPriceLimitRatio = c15Dec("0.5")
+			gp.MinInitialDepositAmount = sdk.NewInt(7)
+			a.LiquidityKeeper.SetGenericParams(c2, gp)
+		}
+		for i, id := range e.assets {
+			c15SetPrice(a, c2, id, uint64(500000+((n+i)%5)*700000), true)
+		}
+		if pv, ok := a.AssetKeeper.GetPairsVault(c2, e.extPair); ok {
+			pv.StabilityFee = c15Dec("0.35")
+			pv.MinCr = c15Dec("1.1")
+			pv.DrawDownFee = c15Dec("0.2")
+			pv.DebtCeiling = sdk.NewInt(5000000)
+			a.AssetKeeper.SetPairsVault(c2, pv)
+		}
+		if ap, ok := a.NewaucKeeper.GetAuctionParams(c2); ok {
+			ap.AuctionDurationSeconds = 7
+			ap.Step = c15Dec("0.5")
+			ap.BidFactor = c15Dec("0.9")
+			a.NewaucKeeper.SetAuctionParams(c2, ap)
+		}
+		if ap, ok := a.AuctionKeeper.GetAuctionParams(c2, e.appHarbor); ok {
+			ap.AuctionDurationSeconds = 5
+			ap.Buffer = c15Dec("3.0")
+			a.AuctionKeeper.SetAuctionParams(c2, ap)
+		}
+		for _, app := range []uint64{e.appHarbor, e.appCommodo} {
+			if wl, ok := a.NewliqKeeper.GetLiquidationWhiteListing(c2, app); ok {
+				wl.KeeeperIncentive = c15Dec("0.9")
+				a.NewliqKeeper.SetLiquidationWhiteListing(c2, wl)
+			}
+		}
+		for _, id := range e.assets[:4] {
+			if rp, ok := a.LendKeeper.GetAssetRatesParams(c2, id); ok {
+				rp.Base = c15Dec("0.5")
+				rp.Ltv = c15Dec("0.1")
+				rp.ReserveFactor = c15Dec("0.9")
+				a.LendKeeper.SetAssetRatesParams(c2, rp)
+			}
+		}
+		for _, v := range a.Rewardskeeper.GetExternalRewardVaults(c2) {
+			if ep, ok := a.Rewardskeeper.GetEpochTime(c2, v.EpochId); ok {
+				ep.StartingTime -= 86400 * 3
+				ep.Count += 2
+				a.Rewardskeeper.SetEpochTime(c2, ep)
+			}
+		}
+		if n%4 == 3 {
+			_ = a.EsmKeeper.SetKillSwitchData(c2, esmtypes.KillSwitchParams{AppId: e.appSwap, BreakerEnable: true})
+		}
+	})
+	c2 = c2.WithBlockHeight(ctx.BlockHeight() + 1000).WithBlockTime(ctx.BlockTime().Add(49 * time.Hour))
+	safely(func() { c16Block(a, c2, true) })
+	safely(func() { _, _ = h(c2, m) })
+	safely(func() { c16Block(a, c2, false) })
+}
+
 // one replay of the seeded history; every random choice comes from newRng(seed()) in a fixed order
 func c16Replay(t *testing.T, tr *tracer, label string, blocks int) {
 	a, ctx := newApp(t)
 	r := newRng(seed())
+	dry := os.Getenv("VERIF_C16_DRYRUN") == "1"
 	tr.p("replay %s", label)
-	ctx = ctx.WithBlockHeight(1).WithBlockTime(baseTime)
+	// what this process would answer for "local" time at an instant after the US switch: the runner
+	// checks that the replays really ran in different zones
+	_, off := time.Unix(c16Start.Unix()+3*86400, 0).Zone()
+	_, off2 := time.Unix(c16Start.Unix(), 0).Zone()
+	tr.p("zone %d_%d", off2, off)
+	if dry {
+		tr.p("mode dryrun")
+	} else {
+		tr.p("mode plain")
+	}
+	ctx = ctx.WithBlockHeight(1).WithBlockTime(c16Start)
 	e := c15Fixture(t, a, ctx)
+	// an external reward program for the vaults of the extended pair: paid once a day for 12 days
+	e.msg(t, a, ctx, true, rewardstypes.NewMsgActivateExternalRewardsVault(e.appHarbor, e.extPair, sdk.NewCoin("uasset3", sdk.NewInt(600000000)), 12, 1, e.user1))
+	// two lockers of the vault app on uasset3 and an external locker-reward program, also daily
+	if _, err := a.LockerKeeper.AddWhiteListedAsset(ctx, &lockertypes.MsgAddWhiteListedAssetRequest{From: e.user1.String(), AppId: e.appHarbor, AssetId: e.assets[2]}); err != nil {
+		t.Fatalf("locker whitelist: %v", err)
+	}
+	if err := a.CollectorKeeper.WasmSetCollectorLookupTable(ctx, &bindings.MsgSetCollectorLookupTable{AppID: e.appHarbor, CollectorAssetID: e.assets[2],
+		SecondaryAssetID: e.assets[1], SurplusThreshold: sdk.NewInt(10000000), DebtThreshold: sdk.NewInt(5000000), LockerSavingRate: sdk.NewDecWithPrec(5, 2),
+		LotSize: sdk.NewInt(2000000), BidFactor: sdk.NewDecWithPrec(1, 2), DebtLotSize: sdk.NewInt(2000000)}); err != nil {
+		t.Fatalf("collector lookup: %v", err)
+	}
+	fund(t, a, ctx, e.user2, sdk.NewCoins(sdk.NewCoin("uasset3", sdk.NewInt(900000000))))
+	e.msg(t, a, ctx, true, lockertypes.NewMsgCreateLockerRequest(e.user1.String(), sdk.NewInt(500000000), e.assets[2], e.appHarbor))
+	e.msg(t, a, ctx, true, lockertypes.NewMsgCreateLockerRequest(e.user2.String(), sdk.NewInt(300000000), e.assets[2], e.appHarbor))
+	e.msg(t, a, ctx, true, rewardstypes.NewMsgActivateExternalRewardsLockers(e.appHarbor, e.assets[2], sdk.NewCoin("uasset4", sdk.NewInt(700000000)), 12, 1, e.user1))
 	users := []sdk.AccAddress{e.user1, e.user2}
 	for i := 0; i < 12; i++ {
 		users = append(users, addrN(200+i))
@@ -117,9 +258,17 @@ func c16Replay(t *testing.T, tr *tracer, label string, blocks int) {
 		tr.p("d bank %s", c16BankDigest(a, ctx, accts))
 	}
 	dump(0, e.log)
+	ndry := 0
+	exec := func(m sdk.Msg) string {
+		if dry {
+			ndry++
+			c16DryRun(t, a, ctx, e, m, ndry)
+		}
+		return e.msg(t, a, ctx, false, m)
+	}
 	prices := []string{"0.99", "1.00", "1.00", "1.01", "1.01", "1.02", "0.98"}
 	for b := 1; b <= blocks; b++ {
-		ctx = ctx.WithBlockHeight(int64(1 + b)).WithBlockTime(baseTime.Add(time.Duration(b) * 6 * time.Second))
+		ctx = ctx.WithBlockHeight(int64(1 + b)).WithBlockTime(c16BlockTime(b))
 		if b == blocks*2/3 {
 			e.dropPrices(a, ctx) // oracle update: vaults and borrows become liquidatable
 		}
@@ -130,30 +279,49 @@ func c16Replay(t *testing.T, tr *tracer, label string, blocks int) {
 			who := users[r.intn(len(users))]
 			switch r.intn(10) {
 			case 0, 1, 2, 3, 4, 5: // limit orders, many at equal prices
-				classes = append(classes, e.order(t, a, ctx, who, r.chance(50), prices[r.intn(len(prices))], int64(100000+r.intn(40)*50000)))
+				buy, price, amt := r.chance(50), prices[r.intn(len(prices))], int64(100000+r.intn(40)*50000)
+				if dry {
+					// the order message is built from the CURRENT fee parameter: dry-run the same order first
+					ndry++
+					c16DryRun(t, a, ctx, e, c16OrderMsg(a, ctx, e, who, buy, price, amt), ndry)
+				}
+				classes = append(classes, e.order(t, a, ctx, who, buy, price, amt))
 			case 6:
 				amt := sdk.NewInt(int64(1000000 + r.intn(5)*1000000))
 				fund(t, a, ctx, who, sdk.NewCoins(sdk.NewCoin("uasset1", amt), sdk.NewCoin("uasset4", amt)))
-				classes = append(classes, e.msg(t, a, ctx, false, liquiditytypes.NewMsgDeposit(e.appSwap, who, e.liqPool,
+				classes = append(classes, exec(liquiditytypes.NewMsgDeposit(e.appSwap, who, e.liqPool,
 					sdk.NewCoins(sdk.NewCoin("uasset1", amt), sdk.NewCoin("uasset4", amt)))))
 			case 7:
 				v := uint64(1 + r.intn(2))
 				owner := users[v-1]
-				classes = append(classes, e.msg(t, a, ctx, false, vaulttypes.NewMsgDepositRequest(owner, e.appHarbor, e.extPair, v, sdk.NewInt(int64(1000+r.intn(100000))))))
+				classes = append(classes, exec(vaulttypes.NewMsgDepositRequest(owner, e.appHarbor, e.extPair, v, sdk.NewInt(int64(1000+r.intn(100000))))))
 			case 8:
 				v := uint64(1 + r.intn(2))
 				owner := users[v-1]
-				classes = append(classes, e.msg(t, a, ctx, false, vaulttypes.NewMsgDrawRequest(owner, e.appHarbor, e.extPair, v, sdk.NewInt(int64(1000+r.intn(400000))))))
+				classes = append(classes, exec(vaulttypes.NewMsgDrawRequest(owner, e.appHarbor, e.extPair, v, sdk.NewInt(int64(1000+r.intn(400000))))))
 			case 9:
 				amt := sdk.NewInt(int64(1000000 + r.intn(3)*1000000))
 				fund(t, a, ctx, who, sdk.NewCoins(sdk.NewCoin("uasset2", amt)))
-				classes = append(classes, e.msg(t, a, ctx, false, &vaulttypes.MsgCreateRequest{From: who.String(), AppId: e.appHarbor,
+				classes = append(classes, exec(&vaulttypes.MsgCreateRequest{From: who.String(), AppId: e.appHarbor,
 					ExtendedPairVaultId: e.extPair, AmountIn: amt, AmountOut: amt.QuoRaw(2)}))
 			}
 		}
 		c16Block(a, ctx, false)
 		dump(b, classes)
 	}
+}
+
+// the limit-order message e.order is about to send (same construction, without funding or sending)
+func c16OrderMsg(a *chain.App, ctx sdk.Context, e *c15Env, who sdk.AccAddress, buy bool, price string, amt int64) sdk.Msg {
+	p := c15Dec(price)
+	dir, ammDir := liquiditytypes.OrderDirectionSell, amm.Sell
+	offer, demand := "uasset1", "uasset4"
+	if buy {
+		dir, ammDir = liquiditytypes.OrderDirectionBuy, amm.Buy
+		offer, demand = "uasset4", "uasset1"
+	}
+	oc := sdk.NewCoin(offer, amm.OfferCoinAmount(ammDir, p, sdk.NewInt(amt)).MulRaw(2))
+	return liquiditytypes.NewMsgLimitOrder(e.appSwap, who, e.liqPair, dir, oc, demand, p, sdk.NewInt(amt), 10*time.Second)
 }
 
 func TestC16(t *testing.T) {
